@@ -170,6 +170,7 @@ def gen_workload(tape):
         q["rmode"] = tape.pick(["between", "between", "tiny", "huge", "between"], "rmode")
         q["unit"] = tape.pick(["number", "km", "m", "miles", "number"], "unit")
         q["spelling"] = tape.choice(3, "spelling")
+        q["no_distance"] = tape.flag("no_distance", 1, 5)
         q["big_m"] = tape.pick([1025, 2500, 3001, 4102, 2048], "big_m") \
             if tape.flag("big_query", 1, 25) else None
         # query the index with the very array objects it was built from
@@ -562,7 +563,14 @@ def run_one(tape, only=None):
                         qbufs[key][1][:] = qp[:, 1]
                         pairs, dist = index.query(qbufs[key][0], qbufs[key][1], r=spell)
                     else:
-                        pairs, dist = index.query(qp[:, 0].copy(), qp[:, 1].copy(), r=spell)
+                        if q.get("no_distance"):
+                            probe("query_without_distances")
+                            pairs = index.query(qp[:, 0].copy(), qp[:, 1].copy(), r=spell,
+                                                return_distance=False)
+                            dist = None
+                        else:
+                            pairs, dist = index.query(qp[:, 0].copy(), qp[:, 1].copy(),
+                                                      r=spell)
                 except Exception as e:  # noqa
                     if plan.take_fired():
                         probe("query_failed_under_fault")   # allowed: it may fail
@@ -570,13 +578,18 @@ def run_one(tape, only=None):
                     V.append(_viol(f"C06/query/exception/{type(e).__name__}",
                                    f"query {qi} r={spell}: {e}"[:300]))
                     return
-                pairs = np.asarray(pairs)
-                if pairs.size == 0:
-                    got, gl = set(), []
-                    probe("empty_answer")
-                else:
-                    gl = [(int(a), int(b)) for a, b in zip(pairs[0], pairs[1])]
-                    got = set(gl)
+                try:
+                    pairs = np.asarray(pairs)
+                    if pairs.size == 0:
+                        got, gl = set(), []
+                        probe("empty_answer")
+                    else:
+                        gl = [(int(a), int(b)) for a, b in zip(pairs[0], pairs[1])]
+                        got = set(gl)
+                except Exception as e:  # noqa: not a 2 x N index array
+                    V.append(_viol("C06/query/malformed-result",
+                                   f"query {qi} r={spell}: {type(e).__name__}: {e}"[:300]))
+                    return
                 answers.append(digest_of(sorted(exp)))
                 if exp == {(0, 0)}:
                     probe("only_pair_is_0_0")
@@ -603,7 +616,7 @@ def run_one(tape, only=None):
                         "C06/spurious-pairs",
                         f"{desc}: {len(extra)} pair(s) outside the radius or with "
                         f"wrong indices, e.g. {sorted(extra)[:4]}"))
-                if not missing and not extra and got:
+                if not missing and not extra and got and dist is not None:
                     dist = np.asarray(dist, dtype=float)
                     if dist.shape != (len(gl),):
                         V.append(_viol("C06/distance-shape",
